@@ -98,7 +98,11 @@ def design(thorough):
            ("PoolAggMC", "PoolAgg_exh_small.cfg"),
            # result destinations (Sink.tla): own files as coded; what a repair of the shared file must establish
            ("SinkMC", "Sink_exh.cfg"), ("SinkMC", "Sink_repair.cfg"),
-           ("AggregatorMC", "Aggregator_exh_discard.cfg")]
+           ("AggregatorMC", "Aggregator_exh_discard.cfg"),
+           # a sink that fails (write error, partial write, short count, close error): the run FAILS, nothing is lost
+           # silently - phout as fixed (the periodic flush ignores the error, the writer keeps it), encoder aggregators
+           ("AggregatorMC", "Aggregator_exh_fault_block.cfg"), ("AggregatorMC", "Aggregator_exh_fault_drop.cfg"),
+           ("AggregatorMC", "Aggregator_exh_fault_drop_q2.cfg")]
     if thorough:
         pos += [("AggregatorMC", "Aggregator_exh_big.cfg"), ("ShutdownMC", "Shutdown_exh_q2.cfg"),
                 ("ShutdownMC", "Shutdown_exh_big.cfg"),
@@ -107,6 +111,9 @@ def design(thorough):
                 ("PoolAggMC", "PoolAgg_live.cfg"), ("PoolAggMC", "PoolAgg_exh_big.cfg")]
     neg = [("AggregatorMC", "Aggregator_neg_nodrain.cfg"), ("AggregatorMC", "Aggregator_neg_noflush.cfg"),
            ("AggregatorMC", "Aggregator_neg_nocount.cfg"), ("AggregatorMC", "Aggregator_neg_late.cfg"),
+           # the code as found: phout dropped the error of its final flush / of Close, jsonEncoder.Flush bufio's error
+           ("AggregatorMC", "Aggregator_neg_swallow_final.cfg"), ("AggregatorMC", "Aggregator_neg_swallow_close.cfg"),
+           ("AggregatorMC", "Aggregator_neg_swallow_tick.cfg"),
            ("ShutdownMC", "Shutdown_neg_nowait.cfg"), ("ShutdownMC", "Shutdown_neg_reach.cfg"),
            # a first signal while the tasks of a FAILED run are awaited ends the process (seed C06-6)
            ("ShutdownMC", "Shutdown_neg_errsig.cfg"),
@@ -229,10 +236,15 @@ def describe_agg(evs, ev, inv, bad):
     nline = sum(1 for e in evs if e["ev"] in ("Line", "JLine", "LogLine", "BadLine"))
     end = next((e for e in evs if e["ev"] == "RunEnd"), {})
     brief = {k: ev.get(k) for k in ("ev", "c", "raw", "s", "dropped", "err", "partial", "lines") if k in ev}
-    return ("agg kind=%s mode=%s inv=%s bad=%s" % (head.get("kind"), head.get("mode"), inv, bad),
-            "real %s aggregator (K=%s queue=%s flush=%sms ids=%s mode %s): %d reports, %d lines, dropped=%s: %s at %s" % (
-                head.get("kind"), head.get("k"), head.get("q"), head.get("flush_ms"), head.get("ids"), head.get("mode"),
-                nrep, nline, end.get("dropped"), bad, brief))
+    fault = head.get("fault") or ""
+    made = "%s %s" % (head.get("build") or "ctor", head.get("type") or head.get("kind"))
+    if head.get("build") == "factory":
+        made = "config.Decode of {type: %s%s} (%s map shape)" % (head.get("type"), ", sink: " + head["sink"] if head.get("sink") else "", head.get("shape"))
+    return ("agg kind=%s mode=%s%s inv=%s bad=%s" % (head.get("kind"), head.get("mode"), " fault=" + fault if fault else "", inv, bad),
+            "real %s aggregator made by %s (K=%s queue=%s flush=%sms ids=%s mode %s%s): %d reports, %d lines, dropped=%s, Run returned %r: %s at %s" % (
+                head.get("kind"), made, head.get("k"), head.get("q"), head.get("flush_ms"), head.get("ids"), head.get("mode"),
+                "; the sink fails from its write no. %s on: %s" % (head.get("fail_at"), fault) if fault else "",
+                nrep, nline, end.get("dropped"), end.get("err"), bad, brief))
 
 
 def describe_sig(evs, ev, inv, bad):
@@ -325,9 +337,10 @@ def run(tier, v):
     ncases, cstates, ctrans, csamples = format_cases(v, vdrive, d)
     # M1 in-process
     agg_path = os.path.join(d, "agg.ndjson")
-    nruns, neng, ncan, nstress, nprov, nother, nstaged = (5000, 300, 1500, 40, 700, 400, 400) if thorough else (300, 24, 40, 4, 24, 30, 20)
+    nruns, neng, ncan, nstress, nprov, nother, nstaged, nfault = (5000, 300, 1500, 40, 700, 400, 400, 1200) if thorough else (300, 24, 40, 4, 24, 30, 20, 80)
     vlib.run_driver(vdrive, ["agg", "-out", agg_path, "-runs", str(nruns), "-engine", str(neng), "-cancel", str(ncan),
-                             "-dropstress", str(nstress), "-provfail", str(nprov), "-other", str(nother), "-staged", str(nstaged)], timeout=3000)
+                             "-dropstress", str(nstress), "-provfail", str(nprov), "-other", str(nother), "-staged", str(nstaged),
+                             "-fault", str(nfault)], timeout=3000)
     rows = vlib.read_ndjson(agg_path)
     # real engine runs (hooks of the await loop merged with report / line events) answer to PoolAgg's trace
     # specification, which re-uses every action of TraceAggregator; direct runs to TraceAggregator itself
@@ -376,6 +389,12 @@ def run(tier, v):
                             "kinds": {k: sum(1 for r in rows if r["ev"] == "Run" and r["kind"] == k)
                                       for k in ("phout", "jsonlines", "log", "discard")}, "engine_hook_events": nhooks,
                             "engine_runs_validated_by_TracePoolAgg": pa_validated,
+                            "runs_with_failing_sink": {f: sum(1 for r in rows if r["ev"] == "Run" and r.get("fault") == f)
+                                                       for f in ("err", "partial", "short", "close")},
+                            "sink_failures_injected": sum(1 for r in rows if r["ev"] == "SinkFault" and r.get("first")),
+                            "made_by": {b: sum(1 for r in rows if r["ev"] == "Run" and r.get("build") == b) for b in ("ctor", "factory")},
+                            "factory_forms": sorted({"%s/%s/%s" % (r.get("type"), r.get("sink") or "-", r.get("shape"))
+                                                     for r in rows if r["ev"] == "Run" and r.get("build") == "factory"}),
                             "trace_spec_states": agg_states},
         "signal_runs": {"validated": sig_validated, "signalled": len(sigs), "self_ended": len(exits) - len(sigs),
                         "error_path_runs": sum(1 for r in srows if r["ev"] == "Start" and r.get("fail")),
